@@ -20,12 +20,14 @@ type c12Case struct {
 	subVer byte
 	E      int64 // publisher expiry seconds, -1 absent
 	M      int64 // configured maximum lifetime seconds, 0 none
-	mode   int   // 0 online, 1 offline then reconnect, 2 window full
+	mode   int   // 0 online, 1 offline then reconnect, 2 window full, 3 offline, delivered unacknowledged, cut, resumed again 1.4s later
 	W      int64 // waiting time in milliseconds
 	qos    byte
 }
 
-var c12Modes = []string{"online", "offline-then-reconnect", "window-full"}
+var c12Modes = []string{"online", "offline-then-reconnect", "window-full", "retransmission-after-second-resume"}
+
+const c12W2 = 1400 // ms between the unacknowledged first transmission and the resume that retransmits it
 
 func (k c12Case) String() string {
 	return fmt.Sprintf("pub-v%d sub-v%d E=%d M=%d mode=%s W=%dms q%d", k.pubVer, k.subVer, k.E, k.M, c12Modes[k.mode], k.W, k.qos)
@@ -92,7 +94,7 @@ func c12Run(c *explore.Ctx, k c12Case) {
 		}
 		var blocker *refmqtt.Packet
 		switch k.mode {
-		case 1:
+		case 1, 3:
 			s.Close()
 			vsched.Settle()
 		case 2:
@@ -116,7 +118,7 @@ func c12Run(c *explore.Ctx, k c12Case) {
 			vsched.Advance(time.Duration(k.W) * time.Millisecond)
 		}
 		switch k.mode {
-		case 1:
+		case 1, 3:
 			s = connectS("S2", false)
 			if s == nil {
 				return
@@ -195,6 +197,48 @@ func c12Run(c *explore.Ctx, k c12Case) {
 				}
 			}
 		}
+		if k.mode == 3 && len(got) == 1 && got[0].QoS > 0 {
+			// the first transmission stays unacknowledged; the connection is cut and the session
+			// resumed again: the retransmission has waited W + c12W2 in all
+			s.Close()
+			vsched.Settle()
+			vsched.Advance(c12W2 * time.Millisecond)
+			s = connectS("S3", false)
+			if s == nil {
+				return
+			}
+			vsched.Settle()
+			var re []*refmqtt.Packet
+			for _, r := range s.Recv() {
+				if r.P != nil && r.P.Type == refmqtt.PUBLISH && string(r.P.Payload) == "msg" {
+					re = append(re, r.P)
+				}
+			}
+			if len(re) != 1 || !re[0].Dup {
+				c.Violate("expiry", fmt.Sprintf("unacknowledged-live-message-retransmitted-%d-times", len(re)), cas(), "one DUP retransmission", pktStrs(re))
+				return
+			}
+			if k.subVer == refmqtt.V5 && k.E > 0 && k.pubVer == refmqtt.V5 {
+				if re[0].Props == nil || re[0].Props.MessageExpiry == nil {
+					c.Violate("remaining-lifetime", "property-absent-on-retransmission", cas(), "Message Expiry Interval", "absent")
+					return
+				}
+				v := int64(*re[0].Props.MessageExpiry)
+				total := k.W + c12W2
+				lo, hi := k.E-(total+999)/1000, k.E-wLo // counted up to now ... as at the first transmission
+				if capped {
+					lo = k.M - (total+999)/1000
+				}
+				if v < lo || v > hi || v < 1 {
+					cl := "retransmission-value-below-original-minus-time-waited"
+					if v > hi {
+						cl = "retransmission-value-above-first-transmission"
+					}
+					c.Violate("remaining-lifetime", cl, cas(), fmt.Sprintf("%d..%d", lo, hi), fmt.Sprint(v))
+					return
+				}
+			}
+		}
 		if s.ClosedByBroker() {
 			c.Violate("connection-kept", "subscriber-disconnected", cas(), "open", fmt.Sprint(w.Closeds))
 		}
@@ -204,7 +248,7 @@ func c12Run(c *explore.Ctx, k c12Case) {
 
 func runC12(c *explore.Ctx) {
 	c.Level = "model_checking"
-	c.Rule = "E2 (virtual clock): the full grid publisher version x subscriber version x Message Expiry Interval {absent,2,5,100} x configured maximum {none,3s,10s} x waiting mode {online, offline then reconnect, in-flight window full} x waiting time {0, 0.6s, 1.4s, L-1, L-0.6s, L-0.4s, L+0.4s, L+1, L+30} (L = lifetime) x QoS, each on a fresh in-process broker: after the wait the message must be delivered exactly once (W < L) with Message Expiry Interval = original - whole seconds waited (a fraction may count down or up, never to 0), or not delivered and reported dropped as expired exactly once (W > L). states = grid points."
+	c.Rule = "E2 (virtual clock): the full grid publisher version x subscriber version x Message Expiry Interval {absent,2,5,100} x configured maximum {none,3s,10s} x waiting mode {online, offline then reconnect, in-flight window full, offline then delivered-unacknowledged then cut and resumed again (the DUP retransmission must carry a value between original minus everything waited and the value of the first transmission)} x waiting time {0, 0.6s, 1.4s, L-1, L-0.6s, L-0.4s, L+0.4s, L+1, L+30} (L = lifetime) x QoS, each on a fresh in-process broker: after the wait the message must be delivered exactly once (W < L) with Message Expiry Interval = original - whole seconds waited (a fraction may count down or up, never to 0), or not delivered and reported dropped as expired exactly once (W > L). states = grid points."
 	c.Trusted = []string{"vsched virtual clock", "refmqtt codec"}
 	c.Assumptions = []string{"for E above the configured maximum both E-W and M-W are accepted as forwarded value", "W == L (the boundary instant) is not generated"}
 	if rc := replayCase(c); rc != nil {
@@ -219,7 +263,7 @@ func runC12(c *explore.Ctx) {
 					continue
 				}
 				for _, M := range []int64{0, 3, 10} {
-					for mode := 0; mode < 3; mode++ {
+					for mode := 0; mode < 4; mode++ {
 						if mode == 2 && sv != refmqtt.V5 {
 							continue
 						}
@@ -236,6 +280,12 @@ func runC12(c *explore.Ctx) {
 								} else {
 									ws = []int64{0, 600, 30000}
 								}
+							}
+							if mode == 3 {
+								if L >= 0 && L < 5 {
+									continue
+								}
+								ws = []int64{0, 1400, 2000}
 							}
 							seenW := map[int64]bool{}
 							for _, W := range ws {
